@@ -136,9 +136,15 @@ def stepOracle (st : St) (ws : List String) (obs : Json) : St × List String :=
   let t0 := jnat (jget obs "t0")
   let now := jnat (jget obs "now")
   let hs := handlesOf obs "objects"
-  let objs : List (String × List (Nat × ClassO)) := hs.map fun h => (h, parseCaObjects (jpath obs ["objects", h]))
+  -- the trust anchor's own objects take part as a CA "ta" with one class and one key
+  let taObjs (o : Json) : List (String × List (Nat × ClassO)) :=
+    match parseTaSet (jpath o ["ta_proxy", "signer", "objects"]) with
+    | some s => [("ta", [(enc "ta", { kind := "current", cur := s })])]
+    | none => []
+  let objs : List (String × List (Nat × ClassO)) :=
+    (hs.map fun h => (h, parseCaObjects (jpath obs ["objects", h]))) ++ taObjs obs
   let prevObjs : List (String × List (Nat × ClassO)) :=
-    (handlesOf st.prev "objects").map fun h => (h, parseCaObjects (jpath st.prev ["objects", h]))
+    ((handlesOf st.prev "objects").map fun h => (h, parseCaObjects (jpath st.prev ["objects", h]))) ++ taObjs st.prev
   -- per set and per transition
   let p1 := objs.flatMap fun (_, cls) => cls.flatMap fun (_, c) => c.sets.flatMap (setPreds now)
   let p2 := objs.flatMap fun (h, cls) => cls.flatMap fun (rcn, c) => c.sets.flatMap fun q =>
@@ -186,14 +192,16 @@ def stepOracle (st : St) (ws : List String) (obs : Json) : St × List String :=
     sortS (want.map (·.1)) == sortS (onSrv.map (·.1)) &&
       (want.filter fun w => !(onSrv.contains w)).all fun w => w.1.endsWith ".mft" || w.1.endsWith ".crl"
   let p5 := (handlesOf obs "server").flatMap fun h =>
-    if h == "ta" || syncPending obs h || inSync h then [] else
+    if syncPending obs h || inSync h then [] else
+    if h == "ta" then ["ServerMatchesObjects/ta"] else
     if unsynced.contains h && filesOnly h then
       (if st.tolerant then [] else ["ServerMatchesObjects/reissue-without-sync"])
     else ["ServerMatchesObjects"]
   -- maintenance runs
   let (runs, force) := republishRuns ws st.prev
+  -- (the trust anchor is outside `republish_all`: refreshed by a proxy↔signer exchange only)
   let p6 := if runs == 0 || !(caCmds obs).isEmpty then [] else
-    objs.flatMap fun (h, cls) => cls.flatMap fun (rcn, c) =>
+    (objs.filter (·.1 != "ta")).flatMap fun (h, cls) => cls.flatMap fun (rcn, c) =>
       let pc := (prevObjs.find? (·.1 == h)).bind fun (_, pcs) => get? pcs rcn
       match pc with
       | none => []
